@@ -197,6 +197,30 @@ static void k_dump_table(struct vbuf *b, struct spki_table *t)
 			  m_src_id(k->socket));
 	}
 	vb_puts(b, "}");
+	/*
+	 * which entry hangs in which bucket chain is part of the real structure too (a defect in the incremental
+	 * resize can drop an entry from its chain while it stays in the list): digest of the bucket walk
+	 */
+	{
+		uint64_t h = 0xcbf29ce484222325ULL;
+		unsigned int members = 0;
+
+		/* addressable positions: the low half and the part of the high half that is split already
+		 * (tommy_hashlin_bucket_ref's own rule; the rest of a growing segment is uninitialised memory) */
+		for (tommy_count_t pos = 0; pos < t->hashtable.low_max + t->hashtable.split && pos < t->hashtable.bucket_max; pos++) {
+			tommy_hashlin_node *n = *tommy_hashlin_pos(&t->hashtable, pos);
+
+			for (; n; n = n->next) {
+				const struct key_entry *k = n->data;
+				uint64_t v = ((uint64_t)pos << 40) ^ ((uint64_t)k->asn << 8) ^ k->ski[19] ^ ((uint64_t)k->spki[90] << 32) ^
+					     ((uint64_t)m_src_id(k->socket) << 56);
+
+				h = (h ^ v) * 0x100000001b3ULL;
+				members++;
+			}
+		}
+		vb_printf(b, "B{%u,%016llx}", members, (unsigned long long)h);
+	}
 }
 
 #endif
